@@ -196,11 +196,13 @@ def diff(a, b, path="$"):
     return None if same(a, b) else f"{path}: {a!r} != {b!r}"
 
 
-def make(t, v, **kw):
+def make(t, v, form=None, **kw):
     """construct the real object"""
     cls = tg.build(t)
     k = t[0]
     if k == "struct":
+        if form in ("kwargs", "omit"):
+            return cls(**v, **kw)  # keyword form of the struct constructor
         return cls(v, **kw)
     if k == "array":
         return cls(v, **kw)
